@@ -206,7 +206,33 @@ func cmdCheck(args []string) int {
 			}
 			ct = &Contract{Name: fnName(fn), Sweep: true, Loops: map[int]*LoopAnn{}}
 		}
-		fx, err := p.verifyFunc(fn, ct)
+		// generation runs under a watchdog: a change that sends the symbolic execution into a path explosion must
+		// end in a report, not in a check that never returns.  The budget is far above what any function needs on
+		// the unchanged tree (the slowest takes under two minutes).
+		var fx *Fx
+		var err error
+		done := make(chan struct{})
+		go func() {
+			defer close(done)
+			fx, err = p.verifyFunc(fn, ct)
+		}()
+		budget := 900 * time.Second
+		if *tier == "thorough" {
+			budget = 2400 * time.Second
+		}
+		if v, e := strconv.Atoi(os.Getenv("GVC_GEN_BUDGET")); e == nil && v > 0 {
+			budget = time.Duration(v) * time.Second // (for testing the watchdog)
+		}
+		select {
+		case <-done:
+		case <-time.After(budget):
+			genFail(name, fmt.Errorf("obligation generation for %s did not finish within %v (path explosion: the function no longer has the shape its contract was written for, or it outgrew the generator)", name, budget))
+			for _, l := range lines {
+				fmt.Println(l)
+			}
+			writeEvidence(verif, id, *tier, seed, nil, nil, &spec, nil, nil, time.Since(t0).Seconds(), violations, nil, "generation watchdog: "+name)
+			os.Exit(1) // the runaway generation shares state with everything that would follow
+		}
 		if err != nil {
 			genFail(name, err)
 			return
